@@ -11,7 +11,7 @@ from sim.seams import Env
 PROPERTY = "C15"
 LEVEL = "exploration"
 SCENARIOS = {"tasks-plain": 2, "tasks-parallel": 2, "processes": 3}
-TIERS = {"quick": {"runs": 4000, "chunk": 10}, "thorough": {"runs": 140000, "chunk": 50}}
+TIERS = {"quick": {"runs": 4000, "chunk": 10}, "thorough": {"runs": 50000000, "wall_s": 600, "chunk": 50, "recheck": 16}}
 RULE = ("one run = 2-3 mailbox users of one simulated terminal, each doing 1-5 SDO exchanges "
         "(expedited reads/writes of its own object, so every message is attributable), "
         "answers delayed 0..4 polls so that exchanges overlap in time; 'tasks-plain': tasks "
@@ -48,13 +48,23 @@ def run(tape, scenario):
     world, bus = env.world, env.bus
     bus.route_by_data0 = parallel
     od = ObjectDictionary()
-    nusers = 2 + tape.draw("c15/nusers", 2)
+    nusers = 2 + tape.draw("c15/nusers", 3)
     for u in range(nusers):
         od.set(0x2000 + u, 1, struct.pack("<I", 0x1000 + u))
     mbx = tape.pick("c15/mbxsz", [48, 64, 128])
-    term, server = make_terminal(bus, "T0", 1005, mbx_out=(0x1000, mbx), mbx_in=(0x1400, mbx), od=od)
-    maxd = tape.draw("c15/maxdelay", 5)
-    term.mbx_delay = lambda: tape.draw("c15/answer-delay", maxd + 1)
+    nterm = 1 + tape.draw("c15/nterm", 2)
+    sterms = []
+    for k in range(nterm):
+        st, srv = make_terminal(bus, f"T{k}", 1005 + k, mbx_out=(0x1000, mbx),
+                                mbx_in=(0x1400, mbx), od=od)
+        maxd = tape.draw("c15/maxdelay", 5)
+        st.mbx_delay = lambda maxd=maxd: tape.draw("c15/answer-delay", maxd + 1)
+        sterms.append((st, srv))
+    # user u talks to terminal user_term[u]; users 0 and 1 always share terminal 0
+    user_term = [0, 0] + [tape.draw("c15/user-term", nterm) for _ in range(nusers - 2)]
+    # in 'processes': user u lives in process user_proc[u] (a process may have several tasks)
+    nprocs = 2 + tape.draw("c15/nprocs", 2) if scenario == "processes" else 1
+    user_proc = [0, 1] + [tape.draw("c15/user-proc", nprocs) for _ in range(nusers - 2)]
     violations = []
     outcomes = {}
 
@@ -102,33 +112,40 @@ def run(tape, scenario):
         if parallel:
             ec.mbx_lock_file = LockFile("/run/ebpf/sim0", *ec.terminal_addr_range)
         await EtherCat.connect(ec)
-        t = preinit(ec, term)
-        tasks = [asyncio.ensure_future(user(u, t, nops[u])) for u in range(nusers)]
+        tobj = [preinit(ec, st) for st, _ in sterms]
+        tasks = [asyncio.ensure_future(user(u, tobj[user_term[u]], nops[u]))
+                 for u in range(nusers)]
         await asyncio.wait(tasks, timeout=5)
         for x in tasks:
             x.cancel()
 
-    def process_main(u):
+    def process_main(pno):
+        mine = [u for u in range(nusers) if user_proc[u] == pno]
+
         async def main(loop):
             try:
                 await asyncio.sleep([0, 0, 30e-6, 200e-6][tape.draw("c15/start", 4)])
-                ec = make_ec(u)
+                ec = make_ec(pno)
                 ec.mbx_lock_file = LockFile("/run/ebpf/sim0", *ec.terminal_addr_range)
                 await EtherCat.connect(ec)
-                t = preinit(ec, term)
-                await asyncio.wait_for(user(u, t, nops[u]), 5)
+                tobj = [preinit(ec, st) for st, _ in sterms]
+                await asyncio.wait_for(asyncio.gather(
+                    *[user(u, tobj[user_term[u]], nops[u]) for u in mine]), 5)
             except asyncio.TimeoutError:
-                outcomes[u] = "timeout"
+                for u in mine:
+                    outcomes.setdefault(u, "timeout")
             except Exception as e:
-                outcomes.setdefault(u, f"{type(e).__name__}: {e}")
+                for u in mine:
+                    outcomes.setdefault(u, f"{type(e).__name__}: {e}")
         return main
 
     aborted = None
     with env:
         try:
             if multi:
-                for u in range(nusers):
-                    sched.spawn(f"user{u}", process_main(u))
+                for pno in range(nprocs):
+                    if any(user_proc[u] == pno for u in range(nusers)):
+                        sched.spawn(f"proc{pno}", process_main(pno))
                 aborted = sched.run()
             else:
                 env.run(single_process)
@@ -146,37 +163,40 @@ def run(tape, scenario):
             idx, = struct.unpack_from("<H", raw, 9)
             return idx - 0x2000
         return None
-    events = [(k, who(raw), (raw[5] >> 4) & 7) for k, raw in term.mbx_log]
-    open_req = None
-    overlap_seen = False
-    for k, u, cnt in events:
-        if k == "w":
-            if open_req is not None:
-                viol("exchanges-interleaved",
-                     f"user {u} wrote a request while user {open_req}'s exchange was open "
-                     f"(mailbox events {[(a, b) for a, b, c in events][:16]})", scenario=scenario)
+    all_events = []
+    overlap_users = 0
+    for tno, (st, server) in enumerate(sterms):
+        events = [(k, who(raw), (raw[5] >> 4) & 7) for k, raw in st.mbx_log]
+        all_events.append(events)
+        open_req = None
+        for k, u, cnt in events:
+            if k == "w":
+                if open_req is not None:
+                    viol("exchanges-interleaved",
+                         f"terminal {tno}: user {u} wrote a request while user {open_req}'s "
+                         f"exchange was open (mailbox events "
+                         f"{[(a, b) for a, b, c in events][:16]})", scenario=scenario)
+                    break
+                open_req = u
+            else:
+                if open_req is not None and u is not None and u != open_req:
+                    viol("foreign-answer-read", f"terminal {tno}: answer for user {u} read "
+                         f"while user {open_req}'s exchange was open", scenario=scenario)
+                open_req = None
+        counters = [cnt for k, u, cnt in events if k == "w"]
+        for i, c in enumerate(counters):
+            ok = 0 <= c <= 7 if i == 0 else c == counters[i - 1] % 7 + 1
+            if not ok:
+                viol("counter-sequence", f"terminal {tno}: request counters {counters}: "
+                     f"position {i} is not the successor in 1..7", scenario=scenario)
                 break
-            open_req = u
-        else:
-            if open_req is not None and u is not None and u != open_req:
-                viol("foreign-answer-read", f"answer for user {u} read while user {open_req}'s "
-                     f"exchange was open", scenario=scenario)
-            open_req = None
-    counters = [cnt for k, u, cnt in events if k == "w"]
-    for i, c in enumerate(counters):
-        if i == 0:
-            ok = 0 <= c <= 7
-        else:
-            prev = counters[i - 1]
-            ok = c == prev % 7 + 1
-        if not ok:
-            viol("counter-sequence", f"request counters {counters}: position {i} is not the "
-                 f"successor in 1..7", scenario=scenario)
-            break
-    for d in server.deviations:
-        if d.rule.startswith("counter"):
-            viol("counter-sequence", f"server: {d.rule}: {d.detail}; counters {counters}",
-                 scenario=scenario)
+        for d in server.deviations:
+            if d.rule.startswith("counter"):
+                viol("counter-sequence", f"terminal {tno} server: {d.rule}: {d.detail}; "
+                     f"counters {counters}", scenario=scenario)
+        users_seen = [u for k, u, c in events if k == "w"]
+        overlap_users += sum(1 for a, b in zip(users_seen, users_seen[1:]) if a != b)
+    events = [e for ev in all_events for e in ev]
     for u in range(nusers):
         o = outcomes.get(u)
         if o not in ("ok",):
@@ -184,7 +204,7 @@ def run(tape, scenario):
                  exception=(o or "none").split(":")[0])
     # exchanges overlapped in time if some user had to wait for the lock
     users_seen = [u for k, u, c in events if k == "w"]
-    switches = sum(1 for a, b in zip(users_seen, users_seen[1:]) if a != b)
+    switches = overlap_users
     trace = tuple(sched.trace) if sched is not None else ()
     return {
         "violations": violations, "stats": dict(world.counters),
